@@ -127,6 +127,7 @@ def jobs(tier):
                       empties=True))
         J.append(_cfg('twoports-N2', 2, 3, 3, 'const', 'none', tier,
                       twoports=True))
+
         J.append(_cfg('g0-condfresh-N2', 2, 2, 3, 'const', 'fresh', tier, g0=3))
         J.append(_cfg('dyadic-N2', 2, 3, 3, 'const', 'none', tier,
                       ts_grid=[0.5, 1.5, 0.25, 1.0],
